@@ -228,7 +228,7 @@ func c07(r *core.Run) {
 	defer func() { resolveObjFields = false }()
 	defer c07Extra(r)
 	p := r.P
-	r.Explanation = "Decides on the SSA of lib/mr, for every path incl. panic paths: each goroutine that can run a caller-supplied generator/mapper/reducer defers (before the call) a recover that forwards the panic value to the once-only panic channel; WaitGroup Add(1) precedes each mapper `go` and Done is deferred exactly once; every channel that is drained, ranged or handed to a callback has exactly one close site, placed in a defer that runs on all paths or in sync.Once.Do, the collector only after wg.Wait and output only together with done; each worker token taken by `pool <- x` is released exactly once (no-item path or the spawned goroutine's defer), pool capacity is the configured worker count which every writer keeps >= 1; cancel is only reachable through a sync.Once wrapper, records the error (nil -> ErrCancelWithNil) before finishing; the reducer goroutine's defer drains the collector and finishes, the mapper dispatcher's defer drains the source; the final select maps ctx -> DeadlineExceeded, panic -> drain(output) and re-panic with the same value, output -> cancel error first, then value / ErrReduceNoOutput; a second reducer write panics; guarded writes are dropped after done/ctx."
+	r.Explanation = "Decides on the SSA of lib/mr, for every path incl. panic paths: each goroutine that can run a caller-supplied generator/mapper/reducer defers (before the call) a recover that forwards the panic value to the once-only panic channel; WaitGroup Add(1) precedes each mapper `go` and Done is deferred exactly once; every channel that is drained, ranged or handed to a callback has exactly one close site, placed in a defer that runs on all paths or in sync.Once.Do, the collector only after wg.Wait and output only together with done; each worker token taken by `pool <- x` is released exactly once (no-item path or the spawned goroutine's defer), pool capacity is the configured worker count which every writer keeps >= 1; cancel is only reachable through a sync.Once wrapper, records the error (nil -> ErrCancelWithNil) before finishing; the reducer goroutine's deferred cleanup drains the collector and finishes, and never finishes before it has drained (c07_r9.go), the mapper dispatcher's defer drains the source; the final select maps ctx -> DeadlineExceeded, panic -> drain(output) and re-panic with the same value, output -> cancel error first, then value / ErrReduceNoOutput; a second reducer write panics; guarded writes are dropped after done/ctx."
 	r.NotDecided = "exactly-once delivery of items and values, the worker bound as a runtime maximum, termination and goroutine-leak freedom over schedules; behaviour of user callbacks; sync/atomic/runtime semantics."
 	m := newMrCtx(r)
 	if len(m.funcs) == 0 {
@@ -986,10 +986,25 @@ func c07(r *core.Run) {
 					id := chanID(a)
 					n++
 					o.Site(1, core.FuncName(b))
-					recs, _ := m.recoverDefers(b)
+					// any deferred call registered before the callback runs on every exit, incl. the panic
+					// path (the recovering one is D1's business): `defer finish()` next to the recovering
+					// closure, or `defer drain(collector)`, serve as well
+					var regs []ssa.Instruction
+					for _, d := range core.Instrs(b, func(in ssa.Instruction) bool { _, k := in.(*ssa.Defer); return k }) {
+						if core.Precedes(b, core.Is(d), core.Is(s)) == nil {
+							regs = append(regs, d)
+						}
+					}
 					okDrain, okFinish := false, false
-					for _, d := range recs {
+					for _, d := range regs {
 						gfn := deferredFn(d)
+						if gfn == nil || len(gfn.Blocks) == 0 {
+							continue
+						}
+						if dc := d.(*ssa.Defer); m.drainFns[gfn] && len(dc.Call.Args) == 1 && chanMatches(m, dc.Call.Args[0], id) {
+							okDrain = true
+							continue
+						}
 						if core.MustPass(core.Entry(gfn), m.isDrainOf(id), core.IsExit) == nil && len(core.Instrs(gfn, m.isDrainOf(id))) > 0 {
 							okDrain = true
 						}
